@@ -114,21 +114,34 @@ static inline std::string gen_name(int i) {
 
 static const int WRITABLE[] = {T_I32, T_I64, T_F64, T_BA, T_BOOL, T_F32, T_FLBA};
 
-static inline Node gen_flat_leaf(int i, bool allow_optional, bool allow_unsigned = false) {
+static inline Node gen_flat_leaf(int i, bool allow_optional, bool allow_unsigned = false, bool allow_repeated = false) {
     Node n; n.leaf = true;
     n.name = gen_name(i);
     n.type = WRITABLE[draw(7)];
     n.rep = allow_optional && draw(2) ? OPT : REQ;
     n.tlen = n.type == T_FLBA ? range(1, 20) : 0;
+    // a top-level REPEATED leaf (a list per row): the writer API takes repetition levels for it
+    if (allow_repeated && draw(5) == 0) n.rep = REPEATED;
     // an integer column annotated as unsigned: same bits, but statistics and predicates order them as unsigned numbers
     if (allow_unsigned && (n.type == T_I32 || n.type == T_I64) && draw(4) == 0) { n.logical = 10; n.lp1 = n.type == T_I32 ? 32 : 64; n.lp2 = 0; }
     return n;
 }
 
 // flat table: schema + rows per row group + content
-struct FlatOpts { int max_cols = 8; int max_rgs = 4; bool allow_big = true; bool allow_wide = true; bool allow_optional = true; bool allow_medium = true; bool allow_unsigned = false; };
+struct FlatOpts { int max_cols = 8; int max_rgs = 4; bool allow_big = true; bool allow_wide = true; bool allow_optional = true; bool allow_medium = true; bool allow_unsigned = false; bool allow_repeated = false; };
 
 static inline void fill_chunk(Chunk& ch, const Col& c, int64_t rows) {
+    if (c.max_rep > 0) {      // top-level REPEATED leaf: a list of 0..4 values per row (max_def 1, max_rep 1)
+        ch.def.clear(); ch.rep.clear(); ch.vals.clear();
+        bool bulk = rows > 48; sim::Rng r; if (bulk) r = sim::sub_rng(); Src s{bulk ? &r : nullptr};
+        int mode = (int)draw(3); uint32_t card = 1 + draw(6) * draw(6);
+        for (int64_t i = 0; i < rows; i++) {
+            uint32_t k = s.d(6); uint32_t n = k < 2 ? 0 : k < 4 ? 1 : k == 4 ? 2 : 3 + s.d(2);
+            if (n == 0) { ch.def.push_back(0); ch.rep.push_back(0); continue; }
+            for (uint32_t q = 0; q < n; q++) { ch.def.push_back(1); ch.rep.push_back(q ? 1 : 0); ch.vals.push_back(gen_value(s, c.type, c.tlen, mode, card)); }
+        }
+        return;
+    }
     ch.def.clear(); ch.rep.assign((size_t)rows, 0); ch.vals.clear();
     bool bulk = rows > 48;
     sim::Rng r;
@@ -206,7 +219,7 @@ static inline Table gen_flat_table(const FlatOpts& o) {
     if (o.allow_wide && draw(60) == 59) ncols = 70 + (int)draw(230);
     if (o.allow_wide && g_row_cap == 0 && draw(12000) == 11999) ncols = 9990 + (int)draw(20);      // around the 10000-element limit the footer parser sets itself
     else if (o.allow_medium && draw(12) == 11) ncols = 9 + (int)draw(12);      // 9..20: crosses the 15-element Thrift list-header switch
-    for (int i = 0; i < ncols; i++) t.root.kids.push_back(gen_flat_leaf(i, o.allow_optional, o.allow_unsigned));
+    for (int i = 0; i < ncols; i++) t.root.kids.push_back(gen_flat_leaf(i, o.allow_optional, o.allow_unsigned, o.allow_repeated));
     derive_leaves(t);
     int nrg = 1 + (int)draw((uint32_t)o.max_rgs);
     if (o.allow_medium && draw(16) == 15) nrg = 5 + (int)draw(14);                 // 5..18 row groups
@@ -222,7 +235,7 @@ static inline Table gen_flat_table(const FlatOpts& o) {
 }
 
 // ---------------------------------------------------------------- write plan (history of writer calls)
-struct Batch { int col; int64_t start, count; bool pass_def; };
+struct Batch { int col; int64_t start, count; bool pass_def; bool pass_rep = false; };      // start/count in level entries (= rows unless the column is REPEATED)
 struct RgPlan { std::vector<Batch> batches; };
 struct WritePlan {
     Table table;
@@ -270,6 +283,14 @@ static inline WritePlan gen_write_plan(const FlatOpts& o) {
         std::vector<std::vector<Batch>> per((size_t)p.table.cols.size());
         for (size_t c = 0; c < p.table.cols.size(); c++) {
             int64_t pos = 0;
+            if (p.table.cols[c].max_rep > 0) {
+                // whole records per call: row ranges translated into entry ranges
+                std::vector<int64_t> row_at; for (size_t e = 0; e < rg.cols[c].rep.size(); e++) if (rg.cols[c].rep[e] == 0) row_at.push_back((int64_t)e);
+                row_at.push_back((int64_t)rg.cols[c].rep.size());
+                int64_t row = 0;
+                for (auto n : gen_composition(rg.rows)) { Batch b{(int)c, row_at[(size_t)row], row_at[(size_t)(row + n)] - row_at[(size_t)row], true, true}; per[c].push_back(b); row += n; }
+                continue;
+            }
             for (auto n : gen_composition(rg.rows)) {
                 Batch b{(int)c, pos, n, true};
                 if (p.table.cols[c].rep == OPT) {
@@ -298,14 +319,14 @@ inline std::string WritePlan::describe() const {
     std::string s = sim::fmt("codec=%d page=%lld %s cols=[", codec, (long long)page_size, path_mode ? "path" : "FILE*");
     for (size_t i = 0; i < table.cols.size() && i < 12; i++) {
         auto& c = table.cols[i];
-        s += sim::fmt("%s%s%s%s", i ? "," : "", type_name(c.type), c.rep == OPT ? "?" : "", c.type == T_FLBA ? sim::fmt("(%d)", c.tlen).c_str() : "");
+        s += sim::fmt("%s%s%s%s", i ? "," : "", type_name(c.type), c.rep == OPT ? "?" : c.rep == REPEATED ? "*" : "", c.type == T_FLBA ? sim::fmt("(%d)", c.tlen).c_str() : "");
     }
     if (table.cols.size() > 12) s += sim::fmt(",...%zu", table.cols.size());
     s += "] rgs=[";
     for (size_t g = 0; g < rgs.size(); g++) {
         s += sim::fmt("%s%lld rows:", g ? " | " : "", (long long)table.rgs[g].rows);
         size_t shown = 0;
-        for (auto& b : rgs[g].batches) { if (shown++ > 24) { s += "..."; break; } s += sim::fmt(" w(c%d,%lld%s)", b.col, (long long)b.count, table.cols[(size_t)b.col].rep == OPT ? (b.pass_def ? ",def" : ",nodef") : ""); }
+        for (auto& b : rgs[g].batches) { if (shown++ > 24) { s += "..."; break; } s += sim::fmt(" w(c%d,%lld%s)", b.col, (long long)b.count, table.cols[(size_t)b.col].rep == OPT ? (b.pass_def ? ",def" : ",nodef") : b.pass_rep ? ",rep" : ""); }
     }
     s += "]";
     return s;
